@@ -9,6 +9,8 @@ CONSTANTS
   Cap = 2
   Buffered = TRUE
   Gaps = "overlap"
+  KeepData = TRUE
+  ExternalProg <- NoExternal
   Emit = FALSE
 INVARIANTS TypeOK Isolation Transparency Available
 PROPERTIES GoodServed AllEnd
